@@ -68,7 +68,7 @@ func (l *lineBuf) split() []string {
 var scenarioWish = map[string]Wish{
 	"stale-leader":         {MinNodes: 3, Async: -1, Tiny: 10, Spare: 0},
 	"lagging-snapshot":     {MinNodes: 3, Async: -1, Tiny: 20, Spare: 20},
-	"conf-lagging-applier": {MinNodes: 3, MaxNodes: 3, Async: 60, Tiny: 0, Spare: 100, NoLearner: true},
+	"conf-lagging-applier": {MinNodes: 3, MaxNodes: 3, Async: 60, Tiny: 30, Spare: 100, NoLearner: true},
 	"disk-stall":           {MinNodes: 3, MaxNodes: 3, Async: 100, Tiny: 10, Spare: 0},
 	"vote-race":            {MinNodes: 3, Async: 50, Tiny: 0, Spare: 0},
 	"pagination":           {MinNodes: 2, MaxNodes: 3, Async: 30, Tiny: 100, Spare: 0},
